@@ -789,7 +789,7 @@ class TransferManager(BaseManager):
 
         4. Calculate the transfer offset and send it
 
-           * In case this fails: put transfer to INCOMPLETE
+           * In case this fails: put transfer back to QUEUED
 
         5. Start downloading, see :meth:`_download_file` : exception cases are
            handled internally by this method
@@ -841,7 +841,7 @@ class TransferManager(BaseManager):
             if transfer.is_upload():
                 await transfer.state.fail()
             else:
-                await transfer.state.incomplete()
+                await transfer.state.queue()
             return
 
         except asyncio.CancelledError:
